@@ -228,7 +228,22 @@ def check_C03(ctx):
         cs.simple('i2f', str(z), 'i2f-random')
     res = ctx.run(cs)
     ev = [c for c in cs.cases if c.kind == 'eval']
-    ctx.compare(ev, res, ['verdict', 'err'], scope=accepted)
+    def in_c03(c, mo, io=None):
+        """the statement restricts integers compared across the int / float64 divide to |n| <= 2^53"""
+        if mo.get('accept') != '1':
+            return False
+        a, lit = c.meta.get('attr'), c.meta.get('lit')
+        if not a or not lit or a == ABSENT:
+            return True
+        try:
+            if a[0] == 'f' and lit[0] == 'long':
+                return abs(int(lit[1])) <= 2**53
+            if a[0] in ('i', 'i32', 'i64') and lit[0] == 'double':
+                return abs(a[1]) <= 2**53
+        except (ValueError, TypeError):
+            pass
+        return True
+    ctx.compare(ev, res, ['verdict', 'err'], scope=in_c03)
     spec_violations(ctx, 'numeric comparison')
     n0 = len(ctx.mismatches)
     ctx.compare([c for c in cs.cases if c.kind in ('pfloat', 'i2f')], res, ['f'])
@@ -861,6 +876,21 @@ def check_C01(ctx):
             so = res.impl.get(sc.id)
             if so and so.get('tree') != tree_sx(q):
                 ctx.violation('the shipped parser groups the rule differently: %s, expected %s' % (so.get('tree'), tree_sx(q)), [sc])
+    # 'nesting of any depth': sentences nested 100 000 and 3 000 000 deep, each in its own child process (stack exhaustion cannot be
+    # recovered from in Go; a process that dies gives no verdict at all)
+    deep = CaseSet()
+    for n in (100000, 3000000):
+        deep.simple('deepnest', str(n), 'deep-nesting-child', depth=n, form='(((')
+    for n in (100000, 3000000):
+        deep.simple('deepnest', '%d not' % n, 'deep-nesting-child', depth=n, form='not (not (not (')
+    dres = ctx.run(deep, label='deep', nshards=len(deep.cases), sides=('impl',), timeout=600)
+    for c in deep.cases:
+        io = dres.impl.get(c.id)
+        if io is None:
+            ctx.violation('the process was killed (fatal error: stack overflow, not recoverable) by the sentence %s ... x eq 1 ... ))) nested %d deep' % (c.meta['form'], c.meta['depth']), [c])
+        elif io.get('verdict') != '1' or io.get('err') != 'none' or io.get('ev3') != '101' or io.get('escaped') != '0':   # an even number of nots
+            ctx.violation('the sentence ((( ... x eq 1 ... ))) nested %d deep on {x: 1} gave %s' % (c.meta['depth'], io), [c], impl=io)
+    ctx.crashes = [cr for cr in ctx.crashes if not (cr[0] == 'impl' and cr[4] in deep.by_id)]
     ctx.extra['exhaustive_part'] = 'bool-exh: %d shapes with <= %d leaves x all leaf assignments (all shapes with <= 2 leaves under every stacking of not/parentheses; quick: all 3-leaf shapes with single wrappers)' % (nshape, kmax)
     ctx.exhaustive = ctx.quick
     spread_samples(ctx, cs, res)
@@ -1152,13 +1182,20 @@ def check_C05(ctx):
     for t_ in scale.long_tokens(ctx):
         cs.eval(t_, obj({'x': I(1)}), 'long-token')
     res = ctx.run(cs)
-    ctx.compare(cs.cases, res, ['accept', 'verdict', 'err', 'ev3'])
+    def valid_utf8(c, mo=None, io=None):
+        """the statement is about valid UTF-8 texts (C14 / C07 / C20 cover arbitrary bytes)"""
+        try:
+            bytes.fromhex(c.line.split(' ')[2][1:]).decode('utf-8')
+            return True
+        except (UnicodeDecodeError, ValueError):
+            return False
+    ctx.compare(cs.cases, res, ['accept', 'verdict', 'err', 'ev3'], scope=valid_utf8)
     nrej = 0
     for c in cs.cases:
         mo, io = res.model.get(c.id), res.impl.get(c.id)
         if not mo or not io or 'accept' not in mo:
             continue
-        if mo['accept'] == '0':
+        if mo['accept'] == '0' and valid_utf8(c):
             nrej += 1
             ctx.nontrivial.add(c.line.split(' ', 2)[2])
             if io.get('verdict') != '0' or io.get('err') == 'none' or io.get('ev3') != '010':
@@ -1266,20 +1303,6 @@ def check_C07(ctx):
             ctx.violation('Error() of a returned error panicked (dbgtext=%s errtext=%s)' % (io.get('dbgtext'), io.get('errtext')), [c], impl=io)
         elif io.get('err') != 'none' and io.get('verdict') != '0':
             ctx.violation('an error was returned together with verdict true', [c], impl=io)
-    # stack exhaustion cannot be recovered from in Go: sentences nested 100 000 and 3 000 000 deep, each in its own child process
-    deep = CaseSet()
-    for n in (100000, 3000000):
-        deep.simple('deepnest', str(n), 'deep-nesting-child', depth=n, form='(((')
-    for n in (100000, 3000000):
-        deep.simple('deepnest', '%d not' % n, 'deep-nesting-child', depth=n, form='not (not (not (')
-    dres = ctx.run(deep, label='deep', nshards=len(deep.cases), sides=('impl',), timeout=600)
-    for c in deep.cases:
-        io = dres.impl.get(c.id)
-        if io is None:
-            ctx.violation('the process was killed (fatal error: stack overflow, not recoverable) by the sentence %s ... x eq 1 ... ))) nested %d deep' % (c.meta['form'], c.meta['depth']), [c])
-        elif io.get('verdict') != '1' or io.get('err') != 'none' or io.get('ev3') != '101' or io.get('escaped') != '0':   # an even number of nots
-            ctx.violation('the sentence ((( ... x eq 1 ... ))) nested %d deep on {x: 1} gave %s' % (c.meta['depth'], io), [c], impl=io)
-    ctx.crashes = [cr for cr in ctx.crashes if not (cr[0] == 'impl' and cr[4] in deep.by_id)]
     ctx.extra['not_exhibited_by_model'] = 'panics inside the ANTLR runtime, fmt or encoding/json; fatal runtime errors (stack exhaustion, out of memory); user-defined marshalling (excluded by the statement). These are only sampled: every batch runs in a child process whose death is reported.'
     spread_samples(ctx, cs, res)
 
